@@ -55,7 +55,9 @@ ASSUMPTIONS = [
     '(relative 4.5e-16), the rest of the tree is compared exactly',
     'the domain is the grammar of Spec/C02.lean: % only directly after a numeric literal without exponent '
     '(a reference or parenthesis followed by % is known finding D3 and outside the generated domain), '
-    'scientific literals in Excel\'s normalised form d[.ddd]E+dd, no array constants {..}, no empty arguments, '
+    'numeric literals are decimal numerals ddd, ddd.ddd, ddd. or .ddd with an optional exponent E+dd / E-dd (the '
+    'exponent sign is always written, as Excel stores it; the mantissa is any decimal numeral - not only Excel\'s '
+    'normalised d[.ddd] - since repair D0101), no array constants {..}, no empty arguments, '
     'no space (intersection) or comma (union) operators, no defined names, no structured/bracketed references, '
     'no unary plus; quoted sheet names contain no ":"',
     'blanks and newlines are placed only where the statement allows them (around operators, parentheses, '
@@ -560,6 +562,12 @@ def regression_cases():
 def child_constructs():
     kids = [('int', N('42')), ('zero', N('0')), ('decimal', N('3', '14')), ('decimal0', N('0', '5')),
             ('sci+', N('1', '5', '+10')), ('sci-', N('2', None, '-05')), ('sci-long', N('6', '02214076', '+23')),
+            # scientific literals whose mantissa is not Excel's normalised d[.ddd] (defect D0101), `.5`, `5.`
+            ('sci-2digit', N('80', None, '-3')), ('sci-zero-lead', N('0', '5', '+1')),
+            ('sci-long-int', N('12', '5', '+0')), ('sci-100', N('100', None, '-2')),
+            ('sci-dot-lead', N('', '5', '+1')), ('sci-dot-trail', N('5', '', '-1')),
+            ('dot-lead', N('', '5')), ('dot-trail', N('5', '')), ('pct-dot-lead', N('', '25', pct=True)),
+            ('pct-dot-trail', N('7', '', pct=True)),
             ('pct', N('50', pct=True)),
             ('pct-decimal', N('12', '5', pct=True)), ('string', S('a b')), ('string-empty', S('')),
             ('string-quote', S('say "hi", (x)')), ('TRUE', TRUE), ('FALSE', FALSE)]
@@ -720,14 +728,28 @@ def rnd_atom(rng):
     k = rng.random()
     if k < .25:
         j = rng.random()
-        if j < .25:     # scientific, normalised
+        if j < .25:     # scientific: Excel's normalised mantissa d[.ddd], or any decimal numeral
             fp = None if rng.random() < .4 else rnd_digits(rng, rng.randint(1, 15))
             j2 = rng.random()
             ex = ('%02d' % rng.randint(0, 99) if j2 < .8 else rnd_digits(rng, rng.randint(1, 4)) if j2 < .95
                   else '00' + rnd_digits(rng, rng.randint(1, 6)))      # (the driver cannot run exponents >= 2^24)
-            return N(rng.choice('123456789'), fp, rng.choice('+-') + ex)
+            j3 = rng.random()
+            if j3 < .55:
+                ip = rng.choice('123456789')
+            elif j3 < .85:
+                ip = rnd_digits(rng, rng.choice((1, 2, 2, 3, 5, 9)))
+            elif j3 < .93:
+                ip, fp = '', rnd_digits(rng, rng.randint(1, 6))          # .5E+1
+            else:
+                ip, fp = rnd_digits(rng, rng.randint(1, 4)), ''          # 5.E-1
+            return N(ip, fp, rng.choice('+-') + ex)
         ip = rnd_digits(rng, rng.choice((1, 1, 2, 3, 5, 9, 15, 20)), first_nonzero=rng.random() < .8)
         fp = None if rng.random() < .5 else rnd_digits(rng, rng.randint(1, 12))
+        j3 = rng.random()
+        if j3 < .04:
+            ip, fp = '', rnd_digits(rng, rng.randint(1, 6))              # .5
+        elif j3 < .08:
+            fp = ''                                                      # 5.
         return N(ip, fp, None, rng.random() < .3)
     if k < .45:
         n = rng.choice((0, 1, 1, 2, 3, 4, 6, 8, 8, 20))
